@@ -639,6 +639,53 @@ class Interp(object):
             raise Undecided("index %s may be out of bounds" % idx)
         return ("byte", idx)
 
+    _PROMOTED = {}
+
+    def promoted_value(self, st, o):
+        """a promoted constant (`&Some(&0xD3)`, `&[16, 8, 0]`): its small body is evaluated once and the value, with the references inside it
+        resolved, is placed in a scratch local; the operand is a reference to that local (or the value itself for a non-reference type)"""
+        path = o.get("s")
+        prom = getattr(self.prog, "promoted", None) or {}
+        if path not in prom:
+            return None
+        key = (id(self.prog), path)
+        if key not in Interp._PROMOTED:
+            try:
+                import guardsem
+                from facts import Fn
+                cb = prom[path]
+                rec = {"rec": "fn", "path": path + "::{promoted}", "kind": "Const", "loc": {"file": "", "line": 0}, "site": {"file": "", "line": 0}, "argc": 0,
+                       "generics": [], "impl": None, "pub": False, "locals": cb["locals"], "debug": [], "blocks": cb["blocks"]}
+                it = guardsem.TabInterp(self.prog, Fn(rec), 64)
+                s2 = State()
+                r = it.run_fn(s2)
+
+                def flat(v, depth=0):
+                    if depth > 6:
+                        raise Undecided("deep promoted constant")
+                    if isinstance(v, Ref) and v.loc[0] == "local":
+                        return flat(it._get(s2, v.loc), depth + 1)
+                    if isinstance(v, Adt):
+                        return Adt(v.path, v.variant, v.vname, [flat(x, depth + 1) for x in v.fields])
+                    if isinstance(v, Tup):
+                        return Tup([flat(x, depth + 1) for x in v.fields])
+                    if isinstance(v, list):
+                        return [flat(x, depth + 1) for x in v]
+                    if isinstance(v, (int, BV)):
+                        return v
+                    raise Undecided("promoted constant with an unmodelled part")
+                Interp._PROMOTED[key] = flat(r)
+            except Exception:
+                Interp._PROMOTED[key] = None
+        val = Interp._PROMOTED[key]
+        if val is None:
+            return None
+        if (o.get("ty") or {}).get("k") == "ref":
+            slot = -700 - (abs(hash(path)) % 90)
+            st.locals[slot] = _copy_val(val, {})
+            return Ref(("local", slot, (), st.frame))
+        return _copy_val(val, {})
+
     def read(self, st, place):
         return self._get(st, self.resolve(st, place))
 
@@ -655,6 +702,9 @@ class Interp(object):
                 return UNIT
             if ty.get("k") == "fndef":
                 return ("fn", ty["path"])
+            pv = self.promoted_value(st, o)
+            if pv is not None:
+                return pv
             raise Undecided("constant of type %s" % (ty.get("s") or ty.get("k")))
         raise Undecided("operand kind %s" % k)
 
